@@ -284,7 +284,7 @@ def parse_results(js, logf, tdir, harnesses):
         else:
             status = "no-result"
         pd = pdet.get(mod, {})
-        stats = cb.get(mod, {}).get("cbmc_stats", {})
+        stats = (cb.get(mod) or {}).get("cbmc_stats") or {}
         out[h.name] = {
             "status": status,
             "kani_status": st,
@@ -294,10 +294,10 @@ def parse_results(js, logf, tdir, harnesses):
             "checks_unreachable": pd.get("unreachable", 0),
             "covers_satisfied": pd.get("satisfied", 0),
             "covers_total": len(covers),
-            "solver_s": round(stats.get("runtime_solver_s", 0.0) + stats.get("runtime_decision_procedure_s", 0.0), 3),
-            "symex_s": round(stats.get("runtime_symex_s", 0.0), 3),
-            "vccs": stats.get("vccs_generated", 0),
-            "vccs_remaining": stats.get("vccs_remaining", 0),
+            "solver_s": round((stats.get("runtime_solver_s") or 0.0) + (stats.get("runtime_decision_procedure_s") or 0.0), 3),
+            "symex_s": round(stats.get("runtime_symex_s") or 0.0, 3),
+            "vccs": stats.get("vccs_generated") or 0,
+            "vccs_remaining": stats.get("vccs_remaining") or 0,
             "failed": [_short(c) for c in real_fail + unwind_fail][:12],
             "unsat_covers": [_short(c) for c in unsat_cov],
             "functions": funcs,
@@ -427,6 +427,7 @@ def main(argv):
     ap.add_argument("--keep", action="store_true")
     ap.add_argument("--only", default=None)
     ap.add_argument("--list", action="store_true")
+    ap.add_argument("--cap", type=int, default=0, help="development: cap every harness timeout (s)")
     ap.add_argument("--no-evidence", action="store_true")
     args = ap.parse_args(argv)
     tier = args.tier if args.tier in ("quick", "thorough") else "quick"
@@ -477,7 +478,10 @@ def do_check(root, reg, prop, tier, seed, args):
     t_start = time.time()
     sel = [h for h in reg if prop in h.props and (h.tier == "quick" or tier == "thorough")]
     if args.only:
-        sel = [h for h in sel if args.only in h.name]
+        sel = [h for h in sel if any(o in h.name for o in args.only.split(","))]
+    if args.cap:
+        for h in sel:
+            h.timeout = min(h.timeout, args.cap)
     if not sel:
         log(f"no harness registered for {prop} at tier {tier}")
         return 2
